@@ -305,7 +305,7 @@ pub fn run(ctx: &Ctx, rep: &Report) {
     }
     // un-abstracted cross-check: all event sequences to a depth from main()'s
     // initial state, query kept verbatim
-    let depth = if ctx.thorough() { 5 } else { 3 };
+    let depth = if ctx.thorough() { 4 } else { 3 };
     let mut seqs = 0u64;
     for n in [0usize, 1, 3] {
         let s0 = St { n, sel: Some(0), quit: false, search: false, sort: 3, asc: false, query: String::new(), width: 0 };
@@ -591,7 +591,7 @@ const FLEETS: [usize; 5] = [0, 1, 3, 4, 13];
 
 pub fn run_render(ctx: &Ctx, rep: &Report) {
     let alpha = alphabet2();
-    let depth = if ctx.thorough() { 7 } else { 4 };
+    let depth = if ctx.thorough() { 5 } else { 4 };
     let mut total_states = 0u64;
     let mut total_trans = 0u64;
     for total0 in FLEETS {
